@@ -1,0 +1,98 @@
+//go:build verif
+// +build verif
+
+package apd
+
+import (
+	"fmt"
+	"sort"
+	"unsafe"
+)
+
+// This file is only compiled with the "verif" build tag. It exposes read-only
+// views of unexported package state for the external verification harness in
+// /verif; it adds no behaviour to any existing function.
+
+func verifDec(d *Decimal) string {
+	return fmt.Sprintf("%d/%v/%d/%s/%s", d.Form, d.Negative, d.Exponent, d.Coeff.String(), d.Coeff.VerifReprString())
+}
+
+// VerifGlobals returns a canonical rendering of every package-level value that
+// operations read. Two calls must return identical slices unless some
+// operation mutated shared state in between.
+func VerifGlobals() []string {
+	var out []string
+	add := func(name, v string) { out = append(out, name+"="+v) }
+	for i := range pow10LookupTable {
+		add(fmt.Sprintf("pow10[%d]", i), pow10LookupTable[i].String()+"/"+pow10LookupTable[i].VerifReprString())
+	}
+	for i := range digitsLookupTable {
+		e := &digitsLookupTable[i]
+		add(fmt.Sprintf("digits[%d]", i), fmt.Sprintf("%d/%s/%s/%s/%s", e.digits, e.border.String(), e.nborder.String(),
+			e.border.VerifReprString(), e.nborder.VerifReprString()))
+	}
+	for _, b := range []struct {
+		n string
+		v *BigInt
+	}{{"bigOne", bigOne}, {"bigTwo", bigTwo}, {"bigFive", bigFive}, {"bigTen", bigTen}} {
+		add(b.n, b.v.String()+"/"+b.v.VerifReprString())
+	}
+	for _, b := range []struct {
+		n string
+		v *Decimal
+	}{
+		{"decimalZero", decimalZero}, {"decimalOneEighth", decimalOneEighth}, {"decimalHalf", decimalHalf},
+		{"decimalOne", decimalOne}, {"decimalTwo", decimalTwo}, {"decimalThree", decimalThree},
+		{"decimalEight", decimalEight}, {"decimalMaxInt64", decimalMaxInt64}, {"decimalMinInt64", decimalMinInt64},
+		{"decimalCbrtC1", decimalCbrtC1}, {"decimalCbrtC2", decimalCbrtC2}, {"decimalCbrtC3", decimalCbrtC3},
+		{"decimalNaN", decimalNaN}, {"decimalInfinity", decimalInfinity},
+	} {
+		add(b.n, verifDec(b.v))
+	}
+	for _, c := range []struct {
+		n string
+		v *constWithPrecision
+	}{{"decimalLn10", decimalLn10}, {"decimalInvLn10", decimalInvLn10}} {
+		add(c.n+".unrounded", verifDec(&c.v.unrounded))
+		for i := range c.v.vals {
+			add(fmt.Sprintf("%s.vals[%d]", c.n, i), verifDec(&c.v.vals[i]))
+		}
+	}
+	add("negSentinel", negSentinel.String())
+	add("BaseContext", fmt.Sprintf("%+v", BaseContext))
+	var rs []string
+	for r := range roundings {
+		rs = append(rs, string(r))
+	}
+	sort.Strings(rs)
+	add("roundings", fmt.Sprint(rs))
+	return out
+}
+
+// VerifRepr describes the representation state of z: whether the value lives
+// in the inline array, whether the negative sentinel is set, the inline words
+// and, for heap values, the address of the heap big.Int.
+func (z *BigInt) VerifRepr() (inline bool, neg bool, words [inlineWords]uint, heap uintptr) {
+	inline = z.isInline()
+	neg = z._inner == negSentinel
+	for i := range z._inline {
+		words[i] = uint(z._inline[i])
+	}
+	if !inline {
+		heap = uintptr(unsafe.Pointer(z._inner))
+	}
+	return
+}
+
+// VerifReprString renders VerifRepr without the heap address (which is not
+// stable across runs) but with the heap words when the value is not inline.
+func (z *BigInt) VerifReprString() string {
+	inline, neg, words, _ := z.VerifRepr()
+	if inline {
+		return fmt.Sprintf("inline:%v:%x", neg, words)
+	}
+	return fmt.Sprintf("heap:%d:%x:%x", z._inner.Sign(), z._inner.Bits(), words)
+}
+
+// VerifInlineWords is the number of machine words in the inline array.
+const VerifInlineWords = inlineWords
